@@ -71,7 +71,8 @@ def check(prog: Program, tier: str) -> Result:
     _r17_13(prog, res)
     _r17_14(prog, res)
     _r17_15(prog, res)
-    res.floors.update({"R17.15": 2, "R17.14": 10, "R17.13": 2, "R17.12": 1, "R17.11": 3, "R17.10": 3, "R17.9": 3, "R17.1": 12, "R17.2": 10, "R17.3": 4, "R17.4": 40, "R17.5": 6, "R17.6": 4, "R17.7": 2, "R17.8": 1})
+    _r17_16(prog, res)
+    res.floors.update({"R17.16": 1, "R17.15": 2, "R17.14": 10, "R17.13": 2, "R17.12": 1, "R17.11": 3, "R17.10": 3, "R17.9": 3, "R17.1": 12, "R17.2": 10, "R17.3": 4, "R17.4": 40, "R17.5": 6, "R17.6": 4, "R17.7": 2, "R17.8": 1})
     res.analysed["bound_claims"] = n_claims
     return res
 
@@ -540,6 +541,81 @@ def _reader_obligation(prog: Program, res: Result, fn: Func, sub: ast.Subscript)
     res.decide(single, "R17.1", fn.loc(ctor), fn.fq, f"single-operator restriction for {src}",
                "the comparison is selected by a template with exactly one operator/comparator" if single else
                "no template restricts the negated comparison to a single operator: `a < b < c` would become `a >= b >= c`")
+
+
+# ------------------------------------------------------------------------------------------------ R17.16
+def _r17_16(prog: Program, res: Result) -> None:
+    """How many terms a range has is Python's definition, `len(range(start, stop, step))`: 0 when the direction of the step does not
+    lead from start to stop.  Where a sum over a constant range is turned into `Sum(f(first + stride * i), (i, 0, N - 1))`, N is that
+    length - written as len(range(..)) of the bounds, or as arithmetic that is evaluated here on the box start, stop in -4..4,
+    step in -3..3 without 0 and compared with len(range(..)) (a two-line interpreter for + - * // % abs min max and unary minus;
+    nothing of the repository is run)."""
+    import itertools as _it
+    from ..defuse import bindings
+    n = 0
+    for fn in prog.funcs.values():
+        if fn.mod.name != "symbolic_math":
+            continue
+        for c in prog.calls_in(fn):
+            if not (norm(c.func).endswith("Sum") and len(c.args) == 2 and isinstance(c.args[1], ast.Tuple) and len(c.args[1].elts) == 3):
+                continue
+            lo, hi = c.args[1].elts[1], c.args[1].elts[2]
+            if not (isinstance(lo, ast.Constant) and lo.value == 0 and isinstance(hi, ast.BinOp) and isinstance(hi.op, ast.Sub) and isinstance(hi.left, ast.Name)
+                    and isinstance(hi.right, ast.Constant) and hi.right.value == 1):
+                continue
+            count_var = hi.left.id
+            defs = [v for _s, v in bindings(fn).get(count_var, []) if v is not None]
+            if len(defs) != 1:
+                res.undecided("R17.16", fn.loc(c), fn.fq, f"{short(c, 70)} # number of terms of the range", f"'{count_var}' has {len(defs)} definitions")
+                continue
+            expr = defs[0]
+            n += 1
+            # names of the three bounds: a tuple target unpacked from the list of the constant bounds
+            roles = {}
+            bounds_name = None
+            for a in walk_own(fn.node):
+                if isinstance(a, ast.Assign) and isinstance(a.targets[0], ast.Tuple) and len(a.targets[0].elts) == 3 and isinstance(a.value, ast.Name):
+                    for role, t in zip(("start", "stop", "step"), a.targets[0].elts):
+                        if isinstance(t, ast.Name):
+                            roles[t.id] = role
+                    bounds_name = a.value.id
+
+            def ev(e, env):
+                if isinstance(e, ast.Constant) and isinstance(e.value, int):
+                    return e.value
+                if isinstance(e, ast.Name):
+                    return env[roles[e.id]]
+                if isinstance(e, ast.UnaryOp) and isinstance(e.op, ast.USub):
+                    return -ev(e.operand, env)
+                if isinstance(e, ast.BinOp):
+                    l, r = ev(e.left, env), ev(e.right, env)
+                    ops = {ast.Add: lambda: l + r, ast.Sub: lambda: l - r, ast.Mult: lambda: l * r, ast.FloorDiv: lambda: l // r, ast.Mod: lambda: l % r}
+                    return ops[type(e.op)]()
+                if isinstance(e, ast.Call) and isinstance(e.func, ast.Name) and e.func.id in ("abs", "min", "max"):
+                    return {"abs": abs, "min": min, "max": max}[e.func.id](*[ev(a, env) for a in e.args])
+                if isinstance(e, ast.Call) and isinstance(e.func, ast.Name) and e.func.id == "len" and len(e.args) == 1 and isinstance(e.args[0], ast.Call) \
+                        and isinstance(e.args[0].func, ast.Name) and e.args[0].func.id == "range":
+                    ra = e.args[0].args
+                    if len(ra) == 1 and isinstance(ra[0], ast.Starred) and isinstance(ra[0].value, ast.Name) and ra[0].value.id == bounds_name:
+                        return len(range(env["start"], env["stop"], env["step"]))
+                    return len(range(*[ev(a, env) for a in ra]))
+                raise KeyError(type(e).__name__)
+            cex = None
+            try:
+                for start, stop, step in _it.product(range(-4, 5), range(-4, 5), [s_ for s_ in range(-3, 4) if s_]):
+                    env = {"start": start, "stop": stop, "step": step}
+                    if ev(expr, env) != len(range(start, stop, step)):
+                        cex = (start, stop, step, ev(expr, env))
+                        break
+            except (KeyError, ZeroDivisionError) as error:
+                res.undecided("R17.16", fn.loc(expr), fn.fq, f"{count_var} = {short(expr, 60)} # number of terms of the range", f"not an arithmetic expression over the bounds ({error})")
+                continue
+            res.decide(cex is None, "R17.16", fn.loc(expr), fn.fq, f"{count_var} = {short(expr, 60)} # number of terms of the range",
+                       "equals len(range(start, stop, step)) on the whole box" if cex is None else
+                       f"for range({cex[0]}, {cex[1]}, {cex[2]}) the expression gives {cex[3]} terms, python {len(range(cex[0], cex[1], cex[2]))}: a range that is empty "
+                       "because its step leads away from the stop is summed as if it ran the other way")
+    if n == 0:
+        res.undecided("R17.16", "pyrefact/symbolic_math.py:0", "symbolic_math", "number of terms of a constant range", "no Sum(.., (i, 0, N - 1)) found")
 
 
 # ------------------------------------------------------------------------------------------------ R17.13
